@@ -116,7 +116,9 @@ pub fn bits_of(data: &[[f32; 3]]) -> Vec<[u32; 3]> {
 pub fn special_px(px: &[u32; 3]) -> bool {
     px.iter().any(|b| {
         let f = f32::from_bits(*b);
-        !(f.is_finite() && f.abs() <= 1e30)
+        // -0.0 too: `f32::max(-0.0, 0.0)` (used by the sRGB and HLG curves) may return either
+        // zero, and which one differs between build profiles and under Miri
+        !(f.is_finite() && f.abs() <= 1e30) || *b == 0x8000_0000
     })
 }
 /// per-pixel mask of special input pixels; None when there is none (the common case)
